@@ -175,19 +175,58 @@ func C12(ctx *core.Ctx) {
 					limitLoad = u
 				}
 			})
-			edgeEnv := func(p, succ *ssa.BasicBlock) *bounds.Env {
+			// the guard may be an extracted predicate of the buffer (f.wouldOverflow(n)):
+			// the current length and the limit are then read inside it
+			var pred *ssa.Call
+			if lenCall == nil {
+				ssax.Instrs(fn, func(in ssa.Instruction) {
+					iff, isIf := in.(*ssa.If)
+					if !isIf {
+						return
+					}
+					cond := iff.Cond
+					if u, isU := cond.(*ssa.UnOp); isU && u.Op == token.NOT {
+						cond = u.X
+					}
+					if pc, isCall := cond.(*ssa.Call); isCall {
+						if g := pc.Call.StaticCallee(); g != nil && g.Pkg == r.Pkg && len(g.Blocks) > 0 && findBufferLen(g) != nil {
+							pred = pc
+						}
+					}
+				})
+				if pred != nil {
+					g := pred.Call.StaticCallee()
+					lenCall = findBufferLen(g)
+					limitLoad = nil
+					ssax.Instrs(g, func(in ssa.Instruction) {
+						if u, ok := in.(*ssa.UnOp); ok && fieldNameOfValue(u) == "limit" && limitLoad == nil {
+							limitLoad = u
+						}
+					})
+				}
+			}
+			termOf := func(e *bounds.Env, v ssa.Value) lin.Term {
+				if pred != nil {
+					if t, ok := e.LiftValue(pred, v, false); ok {
+						return t
+					}
+				}
+				return e.Term(v)
+			}
+			// the cases in which the edge p→succ is taken (one per way an extracted predicate returns its value)
+			edgeEnvs := func(p, succ *ssa.BasicBlock) []*bounds.Env {
 				e := pr.EnvAt(p.Instrs[len(p.Instrs)-1])
 				if iff, isIf := p.Instrs[len(p.Instrs)-1].(*ssa.If); isIf && p.Succs[0] != p.Succs[1] {
-					e.AddCond(iff.Cond, p.Succs[0] == succ)
+					return e.CondCases(iff.Cond, p.Succs[0] == succ)
 				}
-				return e
+				return []*bounds.Env{e}
 			}
 			sizeAfter := func(e *bounds.Env) lin.Term {
 				var add lin.Term = lin.Const(1)
 				if embeddedAppenders[name] == "len(arg)" {
 					add = e.LenOf(c.Common.Args[1])
 				}
-				return e.Term(lenCall).Add(add)
+				return termOf(e, lenCall).Add(add)
 			}
 			if lenCall == nil || limitLoad == nil {
 				okShape, detail = false, "the method appends to the embedded buffer without consulting the current length and the limit"
@@ -197,26 +236,28 @@ func C12(ctx *core.Ctx) {
 					okShape, detail = false, "the embedded append is unconditional"
 				}
 				for _, p := range preds {
-					e := edgeEnv(p, b)
-					L := e.Term(limitLoad)
-					if e.Prove(lin.LE(L, lin.Const(0), "")) {
-						continue // unbounded
+					for _, e := range edgeEnvs(p, b) {
+						L := termOf(e, limitLoad)
+						if e.Prove(lin.LE(L, lin.Const(0), "")) {
+							continue // unbounded
+						}
+						if e.Prove(lin.LE(sizeAfter(e), L, "")) {
+							continue // fits
+						}
+						okShape = false
+						detail = "the embedded append is reachable on a path where neither 'limit = 0' nor '(current length + bytes appended) ≤ limit' is established: a write can push the buffer past its limit"
 					}
-					if e.Prove(lin.LE(sizeAfter(e), L, "")) {
-						continue // fits
-					}
-					okShape = false
-					detail = "the embedded append is reachable on a path where neither 'limit = 0' nor '(current length + bytes appended) ≤ limit' is established: a write can push the buffer past its limit"
 				}
 				// tightness: every rejecting return is reached only when the write really does not fit
 				for blk, kind := range tooLargeReturns(r, fn) {
 					_ = kind
 					for _, p := range blk.Preds {
-						e := edgeEnv(p, blk)
-						L := e.Term(limitLoad)
-						if !(e.Prove(lin.GE(L, lin.Const(1), "")) && e.Prove(lin.GT(sizeAfter(e), L, ""))) {
-							okShape = false
-							detail = "the too-large error can be returned for a write that still fits (or with limit 0): a message within the limit is rejected"
+						for _, e := range edgeEnvs(p, blk) {
+							L := termOf(e, limitLoad)
+							if !(e.Prove(lin.GE(L, lin.Const(1), "")) && e.Prove(lin.GT(sizeAfter(e), L, ""))) {
+								okShape = false
+								detail = "the too-large error can be returned for a write that still fits (or with limit 0): a message within the limit is rejected"
+							}
 						}
 					}
 				}
@@ -469,8 +510,14 @@ func C12(ctx *core.Ctx) {
 		ok := false
 		for _, c := range ssax.Calls(rs) {
 			if c.Static == guardedWrite {
-				if g, isG := LoadedGlobal(ssax.Strip(c.Common.Args[1])); isG && g.Name() == "emptyFrameSize" {
+				// the placeholder: a package-level byte slice initialised with 4 elements and never reassigned
+				if g, isG := LoadedGlobal(ssax.Strip(c.Common.Args[1])); isG && globalSliceLen(r, g) == 4 {
 					ok = true
+				}
+				if mk, isMk := ssax.Strip(c.Common.Args[1]).(*ssa.MakeSlice); isMk {
+					if k, isK := ssax.ConstInt(mk.Len); isK && k == 4 {
+						ok = true
+					}
 				}
 			}
 		}
@@ -689,4 +736,40 @@ func c12Response(ctx *core.Ctx, r *RT, pr *bounds.Prover) {
 		ctx.Check(kinds[constInt(r, "TRANSPORT_EXCEPTION_REQUEST_TOO_LARGE")] && kinds[constInt(r, "TRANSPORT_EXCEPTION_RESPONSE_TOO_LARGE")], "C12.R4", "IsErrTooLarge › recognises both too-large kinds", fnPos(r, it),
 			"REQUEST_TOO_LARGE and RESPONSE_TOO_LARGE", "IsErrTooLarge misses one of the two kinds: trapError does not convert that overflow")
 	}
+}
+
+// globalSliceLen: the length of the slice literal a package-level variable is
+// initialised with, when no function assigns the variable; -1 otherwise.
+func globalSliceLen(r *RT, g *ssa.Global) int64 {
+	n := int64(-1)
+	stores := 0
+	scan := append([]*ssa.Function{}, r.Fns...)
+	if init := r.Pkg.Func("init"); init != nil {
+		scan = append(scan, init)
+	}
+	seen := map[*ssa.Function]bool{}
+	for _, fn := range scan {
+		if seen[fn] {
+			continue
+		}
+		seen[fn] = true
+		ssax.Instrs(fn, func(in ssa.Instruction) {
+			st, ok := in.(*ssa.Store)
+			if !ok || st.Addr != ssa.Value(g) {
+				return
+			}
+			stores++
+			if sl, isSl := st.Val.(*ssa.Slice); isSl && sl.Low == nil && sl.High == nil {
+				if pt, isP := sl.X.Type().Underlying().(*types.Pointer); isP {
+					if arr, isA := pt.Elem().Underlying().(*types.Array); isA {
+						n = arr.Len()
+					}
+				}
+			}
+		})
+	}
+	if stores != 1 {
+		return -1
+	}
+	return n
 }
